@@ -163,3 +163,61 @@ Theorem verify_read_fresh_membership_change_nonvacuous :
     e_type e = EntryConf /\ (i < N.to_nat (n_commit b))%nat /\ 0 < n_commit a.
 Proof. exact verify_read_fresh_membership_change_nonvacuous_ex. Qed.
 Print Assumptions verify_read_fresh_membership_change_nonvacuous.
+
+From BLB Require Import Raft.CombinedExample Raft.MemberSnapSystemU C03.VerifyFreshC C03.VerifyFreshCExample.
+
+(* [FULL] verify_read_fresh over the COMBINED alphabet of C02, membership change and snapshots in one run - cstep of
+   Raft/MemberSnapSystemU - every event of the core on any node, deliveries of any message ever sent including
+   InstallSnapshot any number of times or never, ticks, proposals without configuration entries, AddNode not of the
+   node itself, RemoveNode, SnapshotDone as the state machine issues it, restart, crash after any durable mutation;
+   one bootstrap membership without duplicates. Same statement as verify_read_fresh over logical logs llogC under
+   ghost assignments that fit the states. Proved by the freshness lemma on the virtual system of the combined invariant *)
+Theorem verify_read_fresh_combined :
+  forall (bm : list nid) (be : N), NoDup bm ->
+  forall (a0 a1 a2 : asys) (sched1 sched2 : list sys_event),
+    minitS a0 -> run asys sys_event (cstep bm be) a0 sched1 a1 -> run asys sys_event (cstep bm be) a1 sched2 a2 ->
+    exists Cf1 Cf2, fitsC a1 Cf1 /\ fitsC a2 Cf2 /\
+      forall a b1 b i e,
+        In a (sy_nodes (fst a1)) -> In b1 (sy_nodes (fst a1)) -> In b (sy_nodes (fst a2)) ->
+        n_role b1 = Leader -> n_id b1 = n_id b -> p_term (n_p b1) = p_term (n_p b) ->
+        (length (llogC Cf1 b1) <= i)%nat -> nth_error (llogC Cf2 b) i = Some e -> e_term e = p_term (n_p b) ->
+        (i < N.to_nat (n_commit b))%nat ->
+        (N.to_nat (n_commit a) <= N.to_nat (n_commit b))%nat /\
+        firstn (N.to_nat (n_commit a)) (llogC Cf2 b) = firstn (N.to_nat (n_commit a)) (llogC Cf1 a).
+Proof. exact verify_read_fresh_combined_sys. Qed.
+Print Assumptions verify_read_fresh_combined.
+
+(* [FULL] verify_read_fresh over the combined alphabet, ghost-free: b holds in its physical log an entry of its own term with
+   index greater than the last index b1 had at the request and at most b's commit index. Then every node's commit
+   index of moment 1 is at most b's, and every entry of that node's log up to its commit index is in b's log or under
+   b's snapshot. Same alphabet *)
+Theorem verify_read_fresh_combined_ghost_free :
+  forall (bm : list nid) (be : N), NoDup bm ->
+  forall (a0 a1 a2 : asys) (sched1 sched2 : list sys_event),
+    minitS a0 -> run asys sys_event (cstep bm be) a0 sched1 a1 -> run asys sys_event (cstep bm be) a1 sched2 a2 ->
+    forall a b1 b e,
+      In a (sy_nodes (fst a1)) -> In b1 (sy_nodes (fst a1)) -> In b (sy_nodes (fst a2)) ->
+      n_role b1 = Leader -> n_id b1 = n_id b -> p_term (n_p b1) = p_term (n_p b) ->
+      In e (p_log (n_p b)) -> e_term e = p_term (n_p b) -> last_index (n_p b1) < e_index e -> e_index e <= n_commit b ->
+      n_commit a <= n_commit b /\
+      forall x, In x (p_log (n_p a)) -> e_index x <= n_commit a ->
+        In x (p_log (n_p b)) \/ exists mb, p_snap (n_p b) = Some mb /\ e_index x <= sn_index mb.
+Proof. exact verify_read_fresh_combined_entries. Qed.
+Print Assumptions verify_read_fresh_combined_ghost_free.
+
+(* [FULL] non-vacuity on C02's 20-step combined run: AddNode 3 committed before the request on leader 1 of term 2; inside the
+   window SnapshotDone trims the leader's whole log, InstallSnapshot is delivered to node 3, RemoveNode 2 becomes
+   entry 4 of term 2 and is committed by nodes 1 and 3; leader 1 then meets every hypothesis of the ghost-free theorem *)
+Theorem verify_read_fresh_combined_nonvacuous :
+  exists a0 a1 a2 s1 s2 a b1 b e,
+    minitS a0 /\ NoDup [1; 2] /\
+    run asys sys_event (cstep [1; 2] 5) a0 s1 a1 /\ run asys sys_event (cstep [1; 2] 5) a1 s2 a2 /\
+    In (1, EAddNode 3 77, 0) s1 /\
+    In (1, ESnapDone sm3, 0) s2 /\ In (3, EDeliver q15, 0) s2 /\ In (1, ERemoveNode 2, 0) s2 /\
+    In a (sy_nodes (fst a1)) /\ In b1 (sy_nodes (fst a1)) /\ In b (sy_nodes (fst a2)) /\
+    n_role b1 = Leader /\ n_role b = Leader /\ n_id b1 = n_id b /\ p_term (n_p b1) = p_term (n_p b) /\
+    In e (p_log (n_p b)) /\ e_term e = p_term (n_p b) /\ e_type e = EntryConf /\
+    last_index (n_p b1) < e_index e /\ e_index e <= n_commit b /\
+    0 < n_commit a /\ (exists mb, p_snap (n_p b) = Some mb /\ sn_index mb = 3) /\ length (p_log (n_p b)) = 1%nat.
+Proof. exact verify_read_fresh_combined_nonvacuous_ex. Qed.
+Print Assumptions verify_read_fresh_combined_nonvacuous.
